@@ -39,6 +39,7 @@ pub enum Kind {
     Lseek,
     Ftruncate,
     Sleep,
+    Munmap,
 }
 
 impl Kind {
@@ -54,6 +55,7 @@ impl Kind {
             Kind::Lseek => "lseek",
             Kind::Ftruncate => "ftruncate",
             Kind::Sleep => "sleep",
+            Kind::Munmap => "munmap",
         }
     }
     pub fn from_name(s: &str) -> Option<Kind> {
@@ -533,17 +535,32 @@ pub unsafe extern "C" fn munmap(addr: *mut c_void, len: size_t) -> c_int {
                 poison = true;
             } else {
                 m.swap_remove(i);
+                let _ = DB_MAP_JUST_REMOVED.try_with(|c| c.set(true));
             }
         }
     }
+    let was_db_map = poison || DB_MAP_JUST_REMOVED.with(|c| c.replace(false));
     if poison {
+        let r = {
         // Replace the file mapping by an inaccessible anonymous one at the same address: the
         // range stays reserved (a read through a dangling pointer faults deterministically),
         // while the reference to the open file (and with it its flock) is dropped as munmap would.
         libc::syscall(libc::SYS_mmap, addr, len, libc::PROT_NONE, libc::MAP_FIXED | libc::MAP_PRIVATE | libc::MAP_ANONYMOUS | libc::MAP_NORESERVE, -1, 0);
-        return 0;
+        0
+        };
+        post(Kind::Munmap, -1, 0, 0, true);
+        return r;
     }
-    libc::syscall(libc::SYS_munmap, addr, len) as c_int
+    let r = libc::syscall(libc::SYS_munmap, addr, len) as c_int;
+    if was_db_map {
+        // a mapping of the database file is gone: a lock it pinned may have gone with it
+        post(Kind::Munmap, -1, 0, 0, true);
+    }
+    r
+}
+
+thread_local! {
+    static DB_MAP_JUST_REMOVED: std::cell::Cell<bool> = const { std::cell::Cell::new(false) };
 }
 
 fn sleep_point() -> bool {
